@@ -13,13 +13,23 @@
        of fuel, never an impossible tree, never reading past the stopping token;
      - hence config_read / config_read_file answer success, failure or "nesting beyond the parser stack" for every
        input: no hang, no process exit, in the model (C03_read_total, C03_read_file_total);
+     - the bounds arithmetic of the three places where the library computes capacities itself (MemModel.v, MemFacts.v):
+       the string buffer of strbuf.c (64-byte blocks, size_t wrap written into the model), the string vector of strvec.c
+       (32-entry chunks plus a terminator slot) and the element vector of every group / array / list
+       (__config_list_add / __config_list_remove, 16-entry chunks, realloc may shrink after removals): for EVERY history of
+       appends, releases, adds and in-range removes, every index written or moved lies inside what was last requested
+       from realloc (C03_mem_safe), with the invariants that make it so (C03_strbuf_invariant, C03_strvec_invariant,
+       C03_list_invariant, C03_realloc_tracks); the guard against size_t wrap-around is explicit and C03_strbuf_wrap_refuted
+       shows what happens without it.  Tied to /repo on every run: harness/memdrv.c runs the same operation sequences on
+       the real functions under ASan with realloc observed (--wrap), lengths / capacities / requested sizes compared op by op;
      - the error-state part of "afterwards the configuration can still be ... re-read" is C09.
    History: F5 (default rule reachable inside an include path) and F6 (include of a directory reached
    exit(2)) were defects of the original tree, repaired in /repo. *)
 From Coq Require Import List ZArith NArith Bool.
 Import ListNotations.
 From LC Require Import Base Tree Regex RegexFacts FlexEngine Bisim ScanAction ScannerSpec ScannerCert ScannerFacts
-  Tokens Lexer Parser Reader GrammarFacts ParseTotal LexTotal ReadTotal.
+  Tokens Lexer Parser Reader GrammarFacts ParseTotal LexTotal ReadTotal MemModel MemFacts.
+From LC.gen Require Import Consts.
 From LC.gen Require Import ScannerTables.
 Local Open Scope Z_scope.
 
@@ -80,3 +90,60 @@ Theorem C03_read_file_total : forall atof FS,
   match rd_out_ (config_read_file atof FS c path) with RdOk | RdFail | RdNest => True | _ => False end.
 Proof. exact config_read_file_total. Qed.
 Print Assumptions C03_read_file_total.
+
+
+(* ------------------------------------------------------------------------------------------------------- *)
+(* bounds arithmetic of the string buffer, the string vector and the element vectors (MemModel.v, MemFacts.v) *)
+(* ------------------------------------------------------------------------------------------------------- *)
+
+(* for every history of operations within the guards (no size_t wrap of the string length: total below 2^64 - 128;
+   removals in range, as every caller checks), every step touches only indices inside the allocation it works on *)
+Theorem C03_mem_safe : forall ops, guards m0 ops = true ->
+  Forall (fun out => in_bounds out = true) (snd (mrun m0 ops)).
+Proof. exact mem_safe. Qed.
+Print Assumptions C03_mem_safe.
+
+Theorem C03_strbuf_invariant : forall ops, guards m0 ops = true ->
+  let b := m_sb (fst (mrun m0 ops)) in
+  sb_cap b mod STRING_BLOCK_SIZE = 0 /\ 0 <= sb_cap b < WORD /\ (0 < sb_cap b -> sb_len b + 1 <= sb_cap b) /\ (sb_cap b = 0 -> sb_len b = 0).
+Proof. exact strbuf_invariant. Qed.
+Print Assumptions C03_strbuf_invariant.
+
+Theorem C03_strvec_invariant : forall ops, guards m0 ops = true ->
+  let v := m_sv (fst (mrun m0 ops)) in
+  0 <= sv_len v <= sv_cap v /\ (0 < sv_cap v -> sv_alloc v = sv_cap v + 1) /\ (sv_cap v = 0 -> sv_alloc v = 0).
+Proof. exact strvec_invariant. Qed.
+Print Assumptions C03_strvec_invariant.
+
+Theorem C03_list_invariant : forall ops, guards m0 ops = true ->
+  let l := m_ls (fst (mrun m0 ops)) in 0 <= ls_len l <= ls_alloc l /\ ls_alloc l mod LIST_CHUNK_SIZE = 0.
+Proof. exact list_invariant. Qed.
+Print Assumptions C03_list_invariant.
+
+(* the allocation the model tracks is what the step asked realloc for *)
+Theorem C03_realloc_tracks : forall s o, m_ok s -> guard s o = true ->
+  match mo_realloc (snd (mstep s o)) with
+  | Some n => alloc_bytes (fst (mstep s o)) o = n
+  | None => alloc_bytes (fst (mstep s o)) o = alloc_bytes s o \/ alloc_bytes (fst (mstep s o)) o = 0
+  end.
+Proof. exact realloc_tracks. Qed.
+Print Assumptions C03_realloc_tracks.
+
+(* the guards are met by every history whose strings total less than 2^64 - 128 bytes *)
+Theorem C03_mem_guards : forall ops s, m_ok s ->
+  forallb nonneg_len ops = true -> sb_len (m_sb s) + fold_right (fun o acc => appended o + acc) 0 ops < SB_LIMIT ->
+  ls_guards s ops = true -> guards s ops = true.
+Proof. exact guards_of_total. Qed.
+
+(* without the guard: a string of 2^64 - 2 bytes makes the length computation wrap, realloc is asked for 0 bytes and the
+   write is out of bounds (no such string can exist in a process; the guard is what the proof needs, stated) *)
+Theorem C03_strbuf_wrap_refuted :
+  guards m0 [SbString (WORD - 2)] = false /\
+  snd (mstep m0 (SbString (WORD - 2))) = mkOut (Some 0) (Some (WORD - 2, 0)) false /\
+  in_bounds (snd (mstep m0 (SbString (WORD - 2)))) = false.
+Proof. exact strbuf_wrap_refuted. Qed.
+
+(* non-vacuity: a 108-operation history (70 bytes, release, more; 33 vector appends with a double release; a list grown to
+   33, cut to 16 and grown again) meets the guards and is in bounds *)
+Example C03_mem_example : guards m0 ex_ops = true /\ forallb in_bounds (snd (mrun m0 ex_ops)) = true.
+Proof. exact (conj ex_guards ex_in_bounds). Qed.
